@@ -135,7 +135,14 @@ CrossEku ==
       Xc == Cert(1, "X", "kX", "R2", "kR2")
       L == Leaf(0, "L", "kL", "X", "kX", DNS0)
   IN [certs |-> Fn({Xr, R2, Xc, L}), leaf |-> 0, inters |-> {1}, roots |-> {8, 9}, order |-> <<>>, q |-> Q0, tmpl |-> <<"crosseku", 0>>]
-Templates == {Linear(0), Linear(1), Linear(2), Cross, Loop, Diamond, DeepCross, TwinRoots, CrossEku}
+\* the certificate to verify is an old self-signed CA certificate; its name and key have since been cross-certified by a new
+\* root: the issuer of the old certificate is found in a DIFFERENT certificate with the same subject and key as itself
+SelfTwin ==
+  LET R == Cert(9, "R", "kR", "R", "kR")
+      Xc == Cert(1, "X", "kX", "R", "kR")
+      Xo == [Cert(0, "X", "kX", "X", "kX") EXCEPT !.dns = DNS0, !.eku = {"server"}]
+  IN [certs |-> Fn({R, Xc, Xo}), leaf |-> 0, inters |-> {1}, roots |-> {9}, order |-> <<>>, q |-> Q0, tmpl |-> <<"selftwin", 0>>]
+Templates == {Linear(0), Linear(1), Linear(2), Cross, Loop, Diamond, DeepCross, TwinRoots, CrossEku, SelfTwin}
 
 \* --- knobs: one change to one certificate or to the query ---
 CertKnobs == {"none", "expired", "notyet", "notca", "nocertsign", "pathlen0", "pathlen1", "forged", "permit_ok", "permit_other", "permit_two", "permit_two_other", "crit",
